@@ -105,7 +105,7 @@ def abs_call(op, kw, cat):
 
 
 def _jok(a):
-    if a['t'] in ('null', 'true', 'false', 'int', 'str'):
+    if a['t'] in ('null', 'true', 'false', 'int', 'float', 'str'):
         return True
     if a['t'] == 'arr':
         return all(_jok(x) for x in a['items'])
